@@ -475,6 +475,8 @@ def check_operator_matrix(ctx):
     for n in ast.walk(loops[0]):
         if isinstance(n, ast.AugAssign) and isinstance(n.op, ast.Add) and isinstance(n.target, ast.Name):
             acc = n.target.id
+        if isinstance(n, ast.Call) and isinstance(n.func, ast.Attribute) and n.func.attr in ("append", "extend") and isinstance(n.func.value, ast.Name):
+            acc = n.func.value.id
     grows_ok = acc is not None
     if acc:
         for n in body_walk(fi.node):
